@@ -3,6 +3,7 @@ import SeqVerif.Model.PatternRange
 import SeqVerif.Model.PatternProvider
 import SeqVerif.Model.PatternSpec
 import SeqVerif.Model.PatternSpecTree
+import SeqVerif.Model.PatternDigits
 import SeqVerif.Extracted.C13
 /-!
 # C13 - token matching equals glob / range semantics, with or without dictionary narrowing
@@ -156,6 +157,31 @@ theorem c13_range (pf : Bytes → Option Int) (maxKey : Int) (hb : ∀ b x, pf b
     rangeCheck pf maxKey r v = true ↔
       (EndsNumeric pf r ∧ InNumeric pf r v) ∨ (¬ EndsNumeric pf r ∧ InText r v) :=
   range_iff pf maxKey hb r v
+
+/-- **C13 (plain decimal tokens of any length, closed interval).**  With `digitsNat` = the UNBOUNDED value of an
+all-digit string and a ParseFloat oracle that is monotone in it (`DigitsMono`; rounding may merge neighbours but never
+reverses an order): a digit-string token whose value lies in `[lo, hi]` is accepted by `[lo TO hi]` - for 19, 20, 40
+or any number of digits; nothing wraps at 2^63 or 2^64. -/
+theorem c13_digits_range_closed (pf : Bytes → Option Int) (maxKey : Int)
+    (hb : ∀ b x, pf b = some x → -maxKey ≤ x ∧ x ≤ maxKey) (hm : DigitsMono pf)
+    (lo hi v : Bytes) (a b n : Nat) (x y z : Int)
+    (hlo : digitsNat lo = some a) (hhi : digitsNat hi = some b) (hv : digitsNat v = some n)
+    (plo : pf lo = some x) (phi : pf hi = some y) (pv : pf v = some z) (h1 : a ≤ n) (h2 : n ≤ b) :
+    rangeCheck pf maxKey ⟨some lo, some hi, true, true⟩ v = true :=
+  digits_range_closed pf maxKey hb hm lo hi v a b n x y z hlo hhi hv plo phi pv h1 h2
+
+/-- **(open interval).**  A digit-string token accepted by `(lo TO hi)` has its unbounded value strictly between the
+ends.  (Ends of more than 308 digits are no numbers for ParseFloat; such a range is textual - hypotheses `plo`, `phi`.) -/
+theorem c13_digits_range_open (pf : Bytes → Option Int) (maxKey : Int)
+    (hb : ∀ b x, pf b = some x → -maxKey ≤ x ∧ x ≤ maxKey) (hm : DigitsMono pf)
+    (lo hi v : Bytes) (a b n : Nat) (x y : Int)
+    (hlo : digitsNat lo = some a) (hhi : digitsNat hi = some b) (hv : digitsNat v = some n)
+    (plo : pf lo = some x) (phi : pf hi = some y)
+    (h : rangeCheck pf maxKey ⟨some lo, some hi, false, false⟩ v = true) : a < n ∧ n < b :=
+  digits_range_open pf maxKey hb hm lo hi v a b n x y hlo hhi hv plo phi h
+
+/-- 2^64 + 5 = 18446744073709551621 is a 20-digit token with an unbounded value (no wrap to 5) -/
+example : digitsNat [49,56,52,52,54,55,52,52,48,55,51,55,48,57,53,53,49,54,50,49] = some 18446744073709551621 := by decide
 
 /-- `rangeCheck` is the check of the searcher `newSearcher` returns for a range, over the provider's whole TID range
 (ranges are never narrowed) -/
